@@ -536,8 +536,43 @@ def rr_ensures(s):
 C_RESETRECON = Contract(f"{PB}:PtychographyBase.reset_recon", setup=rr_setup, ensures=rr_ensures, snapshot=reset_snapshot,
                         modifies=lambda ctx, s: (reset_modifies(ctx, s), s.self.fields.update(_iter_losses=[], _iter_val_losses=[])),
                         inline=[f"{PB}:PtychographyBase.obj_model", f"{PB}:PtychographyBase.probe_model", f"{PB}:PtychographyBase.dset"])
-C_CPA = Contract(f"{PB}:PtychographyBase.compute_propagator_arrays", setup=lambda ctx: NS(self=Obj(PBC, {})),
-                 note="assumed frame: does not touch the RNG fields (not verified)")
+
+
+def cpa_snapshot(s):
+    f = s.self.fields
+    g = f.get("_rng")
+    return NS(gseed=getattr(g, "seed", None), draws=getattr(g, "draws", None), trng=f.get("_rng_torch"),
+              tseed=getattr(f.get("_rng_torch"), "seed", None), seed=f.get("_rng_seed"))
+
+
+def _same(a, b):
+    return a is b or (a is not None and b is not None and V.is_z3(lift(a)) and V.is_z3(lift(b)) and z3.eq(lift(a), lift(b)))
+
+
+def cpa_ensures(s):
+    """The STATE of the generators is what matters (not object identity): same seed and same number of draws for the numpy
+    generator; the torch generator (no draw counter in the model) must be the same object with the same seed."""
+    f = s.self.fields
+    g, tg = f.get("_rng"), f.get("_rng_torch")
+    return [("frame:the-state-of-the-generators-and-the-stored-seed-are-unchanged",
+             _same(getattr(g, "seed", None), s.old.gseed) and getattr(g, "draws", None) == s.old.draws
+             and tg is s.old.trng and _same(getattr(tg, "seed", None), s.old.tseed) and _same(f.get("_rng_seed"), s.old.seed))]
+
+
+# verified from source (the probe model / validators are opaque collaborators): reset_recon calls it AFTER _reset_rng, so it must
+# leave the freshly seeded generators alone
+def cpa_setup(ctx):
+    s = rr_setup(ctx)
+    n = ctx.fresh("num_slices", "int")
+    ctx.assume(n.t >= 1)
+    r0, r1 = ctx.fresh("roi0", "int"), ctx.fresh("roi1", "int")
+    ctx.assume(AND(r0.t >= 1, r1.t >= 1))
+    s.self.fields.update(_obj_model=OpaqueWith("obj_model", num_slices=n), _dset=OpaqueWith("dset", roi_shape=(r0, r1)))
+    return s
+
+
+C_CPA = Contract(f"{PB}:PtychographyBase.compute_propagator_arrays", setup=cpa_setup, ensures=cpa_ensures, snapshot=cpa_snapshot,
+                 inline=[f"{PB}:PtychographyBase.obj_model", f"{PB}:PtychographyBase.probe_model", f"{PB}:PtychographyBase.dset"])
 
 
 # --------------------------------------------------------------------------------------------
@@ -621,7 +656,9 @@ RECON_OPAQUE_ALL = [f"{PB}:PtychographyBase._check_preprocessed", f"{PB}:Ptychog
                     f"{PB}:PtychographyBase.constraints", f"{PB}:PtychographyBase.store_snapshots",
                     f"{PB}:PtychographyBase.store_snapshot_every",
                     f"{PTO}:PtychographyOpt.optimizer_params", f"{PTO}:PtychographyOpt.scheduler_params",
-                    f"{PTO}:PtychographyOpt.set_optimizers", f"{PTO}:PtychographyOpt.set_schedulers"]
+                    f"{PTO}:PtychographyOpt.set_optimizers", f"{PTO}:PtychographyOpt.set_schedulers",
+                    "quantem.core.utils.validators:validate_tensor", "quantem.core.utils.utils:to_numpy",
+                    f"{PB}:PtychographyBase._to_torch"]
 
 
 def rr2_ensures(s):
@@ -1095,7 +1132,7 @@ def rt_reset_recon(inp):
 for _c in (C_RESETRECON, C_RESETRECON2):
     _c.rt, _c.rt_family = rt_reset_recon, (lambda: iter([dict(seed=0), dict(seed=7)]))
 
-CONTRACTS = [C_SUBDIVIDE, C_GENERATE, C_ITER, C_LEN, C_ITERVAL, C_VALLEN, C_INIT, C_RNGSET, C_MSET, C_RESET, C_RESETRECON, C_RESETRECON2, C_ERR, C_RECON]
+CONTRACTS = [C_SUBDIVIDE, C_GENERATE, C_ITER, C_LEN, C_ITERVAL, C_VALLEN, C_INIT, C_RNGSET, C_MSET, C_RESET, C_RESETRECON, C_RESETRECON2, C_CPA, C_ERR, C_RECON]
 
 # --------------------------------------------------------------------------------------------
 # property-level lemmas
@@ -1135,12 +1172,13 @@ LEMMAS = [
 TRUSTED = [
     "numpy Generator.permutation(x) = x composed with a bijection of [0,len)",
     "numpy setdiff1d(a,b) = sorted unique elements of a not in b",
-    "T1 telescoping: sum_k (P(k+1)-P(k)) = P(n)-P(0)",
+    "T1 telescoping: sum_k (P(k+1)-P(k)) = P(n)-P(0) - lemmas/discrete.lean D3, proved from Mathlib in the thorough tier",
     "np.random.default_rng(s) / torch.Generator().manual_seed(s) are functions of s (identical draw sequences for identical seeds)",
-    "ASSUMED FRAME: obj_model.reset / probe_model.reset / dset.reset / compute_propagator_arrays do not rebind the RNG fields (opaque collaborators in reset_recon)",
+    "ASSUMED FRAME: obj_model.reset / probe_model.reset / dset.reset (methods of OTHER objects, opaque collaborators in reset_recon) do not reach back into the reconstruction's RNG fields; compute_propagator_arrays' frame is verified from source",
     "pyvc engine (AST interpreter, slice/index semantics), z3, cvc5",
 ]
 ASSUMPTIONS = ["A1 floats are reals (len/ceil(n/B) exact)", "A2 fixed-width ints are mathematical", "A6 numpy contracts"]
+LEAN_FILES = ["discrete.lean"]
 EXPLANATION = "VCs generated from the real source of SimpleBatcher / subdivide_batches / generate_batches, discharged by z3/cvc5"
 BOUNDED = [
     Bounded.from_rt("subdivide/generate_batches small inputs", rt_subdivide, fam_subdivide, "num_items<=13, num_batches/max_batch<=14"),
